@@ -346,9 +346,9 @@ def main(tier):
         plans = [('slash', quick_full, 2), ('noslash', ops_reduced(), 2),
                  ('et', ops_reduced(), 2), ('slash', ops_small(), 3)]
     else:
-        plans = [('slash', ops_full(), 3), ('noslash', ops_full(), 2),
-                 ('et', ops_full(), 2), ('noslash', ops_reduced(), 3),
-                 ('et', ops_reduced(), 3)]
+        plans = [('slash', ops_full(), 2), ('noslash', ops_full(), 2),
+                 ('et', ops_full(), 2), ('slash', ops_reduced(), 3),
+                 ('noslash', ops_small(), 3), ('et', ops_small(), 3)]
     for style, ops, depth in plans:
         _STYLE = style
         st = explorer.bfs(factory, ops, depth, run,
